@@ -142,6 +142,48 @@ impl<KT: DbMapKeyType> FileDbXxxInner<KT> {
 // delete: NEW
 impl<KT: DbMapKeyType> FileDbXxxInner<KT> {}
 
+// relink: a key piece was moved to another offset.
+impl<KT: DbMapKeyType> FileDbXxxInner<KT> {
+    /// returns the offset of the key piece that links to `key_offset`, zero if it is the bucket head.
+    fn find_prev_in_bucket_chain(
+        &mut self,
+        hash: HashValue,
+        key_offset: KeyPieceOffset,
+    ) -> Result<KeyPieceOffset> {
+        let mut prev_key_offset = KeyPieceOffset::new(0);
+        let mut curr_key_offset = self.htx_file.read_key_piece_offset(hash)?;
+        let mut locked_key = self.key_file.0.borrow_mut();
+        while !curr_key_offset.is_zero() && curr_key_offset != key_offset {
+            prev_key_offset = curr_key_offset;
+            curr_key_offset = locked_key.read_piece_only_bucket_next_offset(curr_key_offset)?;
+        }
+        Ok(prev_key_offset)
+    }
+    /// makes the bucket chain link to `new_key_offset` after `prev_key_offset`.
+    /// rewriting the link can move the previous key piece too, then goes up the chain.
+    fn relink_bucket_chain(
+        &mut self,
+        hash: HashValue,
+        prev_key_offset: KeyPieceOffset,
+        new_key_offset: KeyPieceOffset,
+    ) -> Result<()> {
+        let mut prev_key_offset = prev_key_offset;
+        let mut new_key_offset = new_key_offset;
+        while !prev_key_offset.is_zero() {
+            let mut prev_key_piece = self.key_file.read_piece(prev_key_offset)?;
+            prev_key_piece.bucket_next_offset = new_key_offset;
+            let new_prev_key = self.key_file.write_piece(prev_key_piece)?;
+            if prev_key_offset == new_prev_key.offset {
+                return Ok(());
+            }
+            // the previous key piece was moved too: goes up the chain.
+            new_key_offset = new_prev_key.offset;
+            prev_key_offset = self.find_prev_in_bucket_chain(hash, prev_key_offset)?;
+        }
+        self.htx_file.write_key_piece_offset(hash, new_key_offset)
+    }
+}
+
 // find: NEW
 impl<KT: DbMapKeyType> FileDbXxxInner<KT> {
     fn find_in_hash_buckets_kt(
@@ -246,7 +288,9 @@ impl<KT: DbMapKeyType> DbXxxObjectSafe<KT> for FileDbXxxInner<KT> {
         if let Some((key_offset, _prev_key_offset)) = opt {
             let new_key_offset = self.store_value_on_insert(key_offset, value)?;
             if key_offset != new_key_offset {
-                unimplemented!("key_offset != new_key_offset : in put_kt");
+                _cold();
+                // the key piece was moved: changing link of bucket chain.
+                self.relink_bucket_chain(hash, _prev_key_offset, new_key_offset)?;
             }
         } else {
             _cold();
@@ -284,7 +328,10 @@ impl<KT: DbMapKeyType> DbXxxObjectSafe<KT> for FileDbXxxInner<KT> {
                 let new_prev_key = self.key_file.write_piece(prev_key_piece)?;
                 if _prev_key_offset != new_prev_key.offset {
                     _cold();
-                    panic!("_prev_key_offset != new_prev_key_offset : in del_kt");
+                    // the previous key piece was moved: changing link of bucket chain.
+                    let prev_prev_key_offset =
+                        self.find_prev_in_bucket_chain(hash, _prev_key_offset)?;
+                    self.relink_bucket_chain(hash, prev_prev_key_offset, new_prev_key.offset)?;
                 }
             }
             //
